@@ -111,7 +111,7 @@ func checkWalkComplete(c *core.Ctx, l *core.Ledger) {
 				return
 			}
 			cal := call.Common().StaticCallee()
-			if cal == nil || cal.Name() != "visit" || recvNamed(cal) != "visitor" {
+			if cal == nil || !c.Named(cal, "visit") || recvNamed(cal) != "visitor" {
 				return
 			}
 			args := call.Common().Args // v, ss, n
@@ -344,7 +344,7 @@ func checkParseXor(c *core.Ctx, l *core.Ledger) {
 			case "parseFailed":
 				k, isK := st.Val.(*ssa.Const)
 				if isK && core.Sym(k) == "c:false" {
-					l.Check(f.Name() == "newLexer", "XOR", "parseFailed=false@"+core.SSAName(f), c.Rel(in.Pos()), "cleared only at construction", "parseFailed is cleared after construction: an error can be forgotten")
+					l.Check(c.Named(f, "newLexer"), "XOR", "parseFailed=false@"+core.SSAName(f), c.Rel(in.Pos()), "cleared only at construction", "parseFailed is cleared after construction: an error can be forgotten")
 					return
 				}
 				nw++
